@@ -153,6 +153,10 @@ func makePlaintextRedirects(allConfigs []*SiteConfig) []*SiteConfig {
 	for i, cfg := range allConfigs {
 		if cfg.TLS.Enabled &&
 			!cfg.TLS.NoRedirect &&
+			// an explicitly-HTTP site (http:// or the HTTP port) that merely carries
+			// a tls directive is served in plaintext (see MakeServers); it is not a
+			// redirect target and must not be shadowed by a redirect site
+			cfg.Addr.Scheme != "http" && cfg.Addr.Port != httpPort &&
 			!hostHasOtherPort(allConfigs, i, httpPort) &&
 			(cfg.Addr.Port == httpsPort || !hostHasOtherPort(allConfigs, i, httpsPort)) {
 			allConfigs = append(allConfigs, redirPlaintextHost(cfg))
